@@ -616,10 +616,10 @@ impl Space {
                 }
                 // the same sequence with every non-empty subset of its operands written as literals of
                 // the bound values: the value must not depend on which operands the compiler can see
-                // two environments: small ints (e spelled as the hex literal 0x1e), and boundary values
+                // two environments: small ints (b spelled as the hex literal 0x1e), and boundary values
                 // (minimum and maximum int, a uint, 2^32) where a regrouping changes overflow behaviour
                 let lit_envs: [Vec<(&str, V)>; 2] = [
-                    vec![("a", V::Int(7)), ("b", V::Int(3)), ("c", V::Int(2)), ("d", V::Int(5)), ("e", V::Int(30))],
+                    vec![("a", V::Int(7)), ("b", V::Int(30)), ("c", V::Int(2)), ("d", V::Int(5)), ("e", V::Int(11))],
                     vec![("a", V::Int(i64::MIN)), ("b", V::Int(i64::MAX)), ("c", V::Int(1)), ("d", V::UInt(0)), ("e", V::Int(1 << 32))],
                 ];
                 for (ei, env) in lit_envs.iter().enumerate() {
